@@ -551,6 +551,9 @@ func (r *resolver) resolveRef(rs *Resolved, s *Schema, ref string) (_ *Schema, d
 			if err != nil {
 				return nil, "", fmt.Errorf("loading %s: %w", fraglessRefURI, err)
 			}
+			if ls == nil {
+				return nil, "", fmt.Errorf("loading %s: loader returned a nil schema", fraglessRefURI)
+			}
 			// If the referenced schema declares no $schema, it inherits the draft of the
 			// referring document (not of the referring subschema, and without writing
 			// into the loaded schema).
